@@ -269,32 +269,52 @@ def skipToStart (start : Nat) (back : Bool) (log : Log) : List FTxn :=
     else if back then scanBackward start older [tl] else scanForward start (t1 :: fwd)
   | _, _ => []
 
-/-- `FileIterator.__next__` until `h.tid > stop` -/
+/-- status byte `'c'`: voted, `tpc_finish` has not cleared the checkpoint flag yet -/
+def stCheckpoint : Nat := 99
+
+/-- what a reader of the data file finds: after `tpc_vote` the file ends with the complete record of
+    the voted transaction, checkpoint flag still set (a `FileIterator` opens the file by name) -/
+def fileLog (s : FS) : Log :=
+  match s.txn with
+  | some st =>
+    if st.voted then ⟨st.tid, stCheckpoint, st.user, st.desc, st.ext, st.recs⟩ :: s.log else s.log
+  | none => s.log
+
+/-- `FileIterator.__next__`: until `h.tid > stop` or `h.status == 'c'` (the in-progress transaction) -/
 def iterTake (stop : Option Nat) (l : List FTxn) : List FTxn :=
-  match stop with
-  | none => l
-  | some b => l.takeWhile fun t => decide (t.tid ≤ b)
+  l.takeWhile fun t =>
+    (match stop with
+     | none => true
+     | some b => decide (t.tid ≤ b)) && t.status != stCheckpoint
+
+/-- where the iteration starts: at offset 4, or where `_skip_to_start` lands -/
+def iterFrom (start : Option Nat) (back : Bool) (log : Log) : List FTxn :=
+  match start with
+  | none => log.reverse
+  | some a => skipToStart a back log
 
 /-- `iterator(start, stop)` -/
 def iterator (s : FS) (start stop : Option Nat) (back : Bool) : List Txn :=
-  (iterTake stop (match start with
-                  | none => s.log.reverse
-                  | some a => skipToStart a back s.log)).map (absTxn s.log)
+  (iterTake stop (iterFrom start back (fileLog s))).map (absTxn (fileLog s))
 
 def undoEntry (t : FTxn) : UndoEntry := ⟨t.tid, t.user, t.desc, t.ext, t.tlen⟩
 
-/-- `UndoSearch`: `i` = number of matching transactions found so far; the head of the list is the
-    transaction ending at `self.pos` -/
-def undoSearch (first last : Nat) : Nat → Log → List UndoEntry
+/-- `UndoSearch`: `i` = number of matching transactions found so far (a transaction the filter
+    rejects is not counted); the head of the list is the transaction ending at `self.pos` -/
+def undoSearch (p : UndoEntry → Bool) (first last : Nat) : Nat → Log → List UndoEntry
   | _, [] => []
   | i, t :: older =>
     if last ≤ i ∨ logEnd (t :: older) ≤ 4 then []           -- finished(): `self.pos <= 4` (was `< 39`)
     else if t.status = stPacked then []                       -- stop
-    else if t.status ≠ stNormal then undoSearch first last i older
-    else (if first ≤ i then [undoEntry t] else []) ++ undoSearch first last (i + 1) older
+    else if t.status ≠ stNormal ∨ p (undoEntry t) = false then undoSearch p first last i older
+    else (if first ≤ i then [undoEntry t] else []) ++ undoSearch p first last (i + 1) older
 
-/-- `undoLog(first, last)` for `last ≥ 0` (a negative `last` is normalised to `first - last` first) -/
-def undoLog (s : FS) (first last : Nat) : List UndoEntry := undoSearch first last 0 s.log
+/-- `undoLog(first, last, filter)` for `last ≥ 0` (a negative `last` is normalised to `first - last`) -/
+def undoLogF (s : FS) (p : UndoEntry → Bool) (first last : Nat) : List UndoEntry :=
+  undoSearch p first last 0 s.log
+
+/-- `undoLog(first, last)` without a filter -/
+def undoLog (s : FS) (first last : Nat) : List UndoEntry := undoLogF s (fun _ => true) first last
 
 /-- `lastInvalidations(n)` -/
 def lastInvalidations (s : FS) (n : Nat) : List (Nat × List Nat) :=
